@@ -823,3 +823,13 @@ package fzf
 //@ func getScrollbar
 //@ property C14
 //@ requires perLine >= 1 && total >= 0 && height >= 0
+
+// removeFiles: every temporary file of an expansion is handed to os.Remove, whatever the earlier removals
+// returned (counted with a ghost counter: one os.Remove per entry).
+//@ func removeFiles
+//@ property C14
+//@ ghost nremoved int
+//@ ghost @"os.Remove(filename)" nremoved = nremoved + 1
+//@ ensures nremoved == len(files)
+//@ loop 1
+//@   invariant nremoved == iter
